@@ -782,18 +782,24 @@ def r_sent(ctx, col, names_cls):
     if len(shifts) != 1:
         raise AnalysisError("anchor-vanished: the single `v += id_offset` in get_v")
     sh = shifts[0]
-    guard = None
-    for a in _ancestors(repo, sh, gv):
-        if isinstance(a, ast.If):
-            guard = a
-            break
+    from .. import pathcond
+    tests, complete = pathcond.conditions_at(gv.node, sh)
     col.check(isinstance(sh.value, ast.Name) and sh.value.id == "id_offset" and
               "id_offset" in w.params, "R-SENT", gv.qualname, gv.loc(sh),
               "id and parent id are shifted by the same amount, the id_offset argument",
               norm_src(sh), f"shift amount is `{norm_src(sh.value)}`", stmt="shift-amount")
-    if guard is None:
-        col.bad("R-SENT", gv.qualname, gv.loc(sh), "shift is guarded", "unguarded shift", stmt="guard")
+    # the floating-point arm returns before the shift: its test says nothing about (column, value)
+    tests = [(t, pol) for t, pol in tests if "issubdtype" not in norm_src(t) and "floating" not in norm_src(t)]
+    if not tests:
+        # no test at all on the way to the shift, in straight-line code: every column of every row is shifted
+        col.judge(complete, False, "R-SENT", gv.qualname, gv.loc(sh), "shift is guarded", "", "unguarded shift",
+                  "no test found on the way to the shift, but the path is not straight-line code", stmt="guard", definite=True)
         return
+
+    class _G:  # the conjunction of the tests under which the shift runs
+        test = pathcond.as_expr(tests)
+        lineno = tests[0][0].lineno
+    guard = _G
     vname = sh.target.id
     oracle = {("id", -1): True, ("id", 7): True, ("pid", -1): False, ("pid", 7): True,
               ("type", -1): False, ("type", 7): False, ("x", 7): False}
